@@ -8,6 +8,16 @@ HERE = os.path.dirname(os.path.dirname(os.path.abspath(__file__)))
 
 # pid -> (category, technique, level text, level note, design ref)
 CHECKS = {
+    "C03": (
+        "fault_enumeration",
+        "Hypothesis-generated rail configurations and conversations (Colang 1.0 and 2.x) x enumeration of ALL single fault plans (action call site x invocation index; thorough: all pairs) derived from a fault-free dry run; oracle = generate returns, unchecked LLM text withheld, next turn identical to the dry run",
+        "For every drawn configuration/conversation a fault-free dry run yields the sequence of custom-action invocations (input rails, output rails, retrieval and dialog "
+        "actions); then every single invocation (thorough: every pair) is made to raise RuntimeError in turn. For each plan: generate must return normally; a fault in an "
+        "output-rail action must keep that turn's LLM text out of the reply (refusal or fixed internal-error message instead); a fault in an input-rail action must prevent any "
+        "generation LLM call in that turn; and the following fault-free turn must show exactly the rail trace and reply of the dry run (the failure does not poison the conversation).",
+        "Fail-closed is asserted for rails of the library convention (`if not $allowed`); a dialog-action fault in v2 may legitimately give an empty reply; LLM provider failures are excluded as the property says.",
+        "DESIGN.md 4/C03",
+    ),
     "C01": (
         "exploration",
         "Hypothesis: generated rail sets/orders x accept/reject/rewrite verdict tables x hostile user texts x multi-turn conversations (Colang 1.0 and 2.x) through LLMRails.generate; reference pipeline model over the rail-action trace, the scripted LLM's prompt log and the reply",
